@@ -29,6 +29,20 @@ Monitors
            complete (keys carry the history class after-timeout / after-cancel)
            ; likewise a client read whose response is withheld at the client's host boundary (times
            out / is cancelled) is followed by further requests on that bearer, judged as usual
+  burst    server-initiated PDUs that share a burst with the response to the request that enabled them: the
+           server's `subscription` handler (armed for one CCCD write of one bearer) pushes a notification /
+           indication through the API from a task (the PDU follows the Write Response) or straight from the
+           handler (the PDU precedes it) while subscribe() - Client.subscribe(proxy, f) or
+           CharacteristicProxy.subscribe(f) - is still pending; in 70 % of the steps everything the client's
+           controller hands to its host is held until the server is quiet and then released back to back, so that
+           response and PDU reach the client host in consecutive loop turns. Whatever is on the wire (hand-parsed)
+           must reach the subscriber passed to that very subscribe() call exactly once with the PDU's value, every
+           subscriber registered earlier, and the proxy's 'update' event; an indication is confirmed once. Keys
+           carry the arrival class before-response / with-response / after-return. Symmetric: unsubscribe of ONE
+           subscriber (both API forms) or of all while the server pushes a forced PDU from the handler, then
+           forced PDUs of both kinds after unsubscribe() returned: a removed subscriber is never called once
+           unsubscribe() has returned (calls while it is pending are not pinned), the subscribers that stay
+           get every PDU of their kind.
   term     a hand-driven adversarial ATT server (RawPeer) answers every discovery procedure
            with non-progressing responses; requests are counted on the wire
 """
@@ -51,7 +65,9 @@ RULE = ('seeded cases. db: random database (0-6 services incl. secondary, includ
         'multi-request discovery or a Read Blob. notif: 1-3 clients x fixed+enhanced bearers x random '
         'subscription sets x every server API form x per-bearer reads of CCCDs and bearer-/connection-scoped '
         'values through 7 read paths x indications left unconfirmed (5 fault forms) or cancelled, each followed '
-        'by another indication to the same bearer; non-trivial when >= 1 PDU was delivered and >= 1 bearer '
+        'by another indication to the same bearer x subscribe / unsubscribe (2 API forms, one / all subscribers) '
+        'with a PDU pushed from the server\'s subscription handler before / with / after the Write Response (client '
+        'host packets held and released back to back); non-trivial when >= 1 PDU was delivered and >= 1 bearer '
         'was (correctly or not) left out. term: procedure x adversarial strategy; non-trivial when the '
         'adversary answered >= 1 request. distinct = distinct descriptor tuple')
 ASSUMPTIONS = [
@@ -62,6 +78,10 @@ ASSUMPTIONS = [
     'notify/indicate_subscribers(force=True): recipients must include every subscribed bearer; which '
     'further bearers are reached is not pinned, only their PDU kind and truncation',
     'notify/indicate_subscriber(connection, force=False) addresses every bearer of that connection',
+    'a notification / indication that reaches the client after the CCCD write was accepted (or before its Write '
+    'Response: ATT allows server-initiated PDUs at any time) belongs to the subscriber passed to the pending '
+    'subscribe(); a call of a removed subscriber while unsubscribe() is still pending is not pinned, one after it '
+    'returned is a violation',
     'writes longer than ATT_MTU-3 (long writes) are not exercised: the server has no Prepare Write',
     'Read Blob of a value that fits in one Read Response may be answered with the data or with Attribute Not Long '
     '(Vol 3 Part F 3.4.4.5); Read Multiple (Variable) is only judged on sets of values that fit in ATT_MTU-1 '
@@ -84,7 +104,15 @@ MIN_EVENTS = {
               'bearer_read_by_type': 100, 'bearer_read_multiple': 80, 'bearer_read_multiple_variable': 80,
               'failed_indications': 70, 'unconfirmed_indications_on_wire': 70, 'indications_after_failed': 100,
               'indications_after_timeout': 70, 'indications_after_cancel': 25,
-              'bearer_read_find_by_type_value': 60, 'failed_client_requests': 40, 'requests_after_failed': 80},
+              'bearer_read_find_by_type_value': 60, 'failed_client_requests': 40, 'requests_after_failed': 80,
+              # server-initiated PDUs in the burst of the response that enabled them; unsubscribe's return
+              'pushed_callback_checks': 200, 'pushed_on_subscribe_before-response': 60,
+              'pushed_on_subscribe_with-response': 70, 'pushed_on_subscribe_after-return': 25,
+              'pushed_on_subscribe_fixed': 100, 'pushed_on_subscribe_eatt': 60, 'pushed_on_subscribe_notification': 80,
+              'pushed_on_subscribe_indication': 80, 'pushes_on_subscribe_through_proxy_api': 80,
+              'pushes_on_subscribe_through_client_api': 80, 'unsubscribe_return_checks': 80, 'unsubscribe_form_one': 45,
+              'unsubscribe_form_all': 20, 'forced_pdus_after_unsubscribe_returned': 120,
+              'remaining_subscriber_checks': 120},
     'thorough': {'tree_checks': 90000, 'read_checks': 100000, 'read_checks_long': 24000, 'write_checks': 18000,
                  'notif_api_calls': 24000, 'wire_notifications': 12000, 'wire_indications': 9000,
                  'confirm_order_checks': 9000, 'truncation_checks': 21000, 'callback_checks': 21000,
@@ -94,7 +122,14 @@ MIN_EVENTS = {
                  'bearer_read_by_type': 3000, 'bearer_read_multiple': 2400, 'bearer_read_multiple_variable': 2400,
                  'failed_indications': 2100, 'unconfirmed_indications_on_wire': 2100, 'indications_after_failed': 3000,
                  'indications_after_timeout': 2100, 'indications_after_cancel': 750,
-                 'bearer_read_find_by_type_value': 1800, 'failed_client_requests': 1200, 'requests_after_failed': 2400},
+                 'bearer_read_find_by_type_value': 1800, 'failed_client_requests': 1200, 'requests_after_failed': 2400,
+                 'pushed_callback_checks': 1800, 'pushed_on_subscribe_before-response': 540,
+                 'pushed_on_subscribe_with-response': 630, 'pushed_on_subscribe_after-return': 220,
+                 'pushed_on_subscribe_fixed': 900, 'pushed_on_subscribe_eatt': 540, 'pushed_on_subscribe_notification': 720,
+                 'pushed_on_subscribe_indication': 720, 'pushes_on_subscribe_through_proxy_api': 720,
+                 'pushes_on_subscribe_through_client_api': 720, 'unsubscribe_return_checks': 720, 'unsubscribe_form_one': 400,
+                 'unsubscribe_form_all': 180, 'forced_pdus_after_unsubscribe_returned': 1080,
+                 'remaining_subscriber_checks': 1080},
 }
 CASE_TIMEOUT = 600
 
@@ -727,6 +762,8 @@ class HB:
         self.cccd = {}                 # value handle -> last CCCD value written on this bearer (wire)
         self.cbs = {}                  # value handle -> {'n': count, 'i': count}
         self.cb_log = []               # (value handle, kind, value)
+        self.subs = {}                 # value handle -> [{'sid', 'kind', 'cb'}] registered through subscribe()
+        self.cb_trace = []             # (sid, value handle, kind, value, phase the harness was in)
         self.hist = ''                 # 'after-timeout' | 'after-cancel' once an indication on it failed
         self.who = 0                   # small id the scoped values are derived from (1 + idx)
         self.conn_who = 0              # id of the fixed bearer of the same connection
@@ -869,6 +906,23 @@ async def notif_case(case, r: R):
                 f'bearers={[(b.name, b.wire.mtu) for b in bearers]} '
                 f'chars={[(c.handle, hex(c.props), len(c.value)) for c in subs]}')
 
+    phase = {'now': ''}              # where the harness is inside a push step (recorded by every callback)
+    sids = [0]
+
+    def make_cb(hb: HB, c: rg.Char, kind: str):
+        sids[0] += 1
+
+        def cb(v, hb=hb, h=c.handle, kind=kind, sid=sids[0]):
+            hb.cb_log.append((h, kind, bytes(v)))
+            hb.cb_trace.append((sid, h, kind, bytes(v), phase['now']))
+        cb.sid = sids[0]
+        return cb
+
+    def sub_kind(c: rg.Char, prefer_notify: bool) -> str:
+        if c.props & rg.P_NOTIFY and c.props & rg.P_INDICATE:
+            return 'n' if prefer_notify else 'i'
+        return 'n' if c.props & rg.P_NOTIFY else 'i'
+
     async def do_subscribe(hb: HB, c: rg.Char, prefer_notify: bool):
         if c.props & rg.P_NOTIFY and c.props & rg.P_INDICATE:
             kind = 'n' if prefer_notify else 'i'
@@ -877,14 +931,13 @@ async def notif_case(case, r: R):
         else:
             kind = 'i'
 
-        def cb(v, hb=hb, h=c.handle, kind=kind):
-            hb.cb_log.append((h, kind, bytes(v)))
-
+        cb = make_cb(hb, c, kind)
         ok, _ = await call(r, f'subscribe/{hb.kind}', hb.client.subscribe(hb.proxies[c.handle], cb, prefer_notify))
         await rig_.quiesce()
         absorb()
         if ok:
             hb.cbs[c.handle][kind] += 1
+            hb.subs.setdefault(c.handle, []).append({'sid': cb.sid, 'kind': kind, 'cb': cb})
             want = 1 if kind == 'n' else 2
             r.check(hb.cccd.get(c.handle) == want, f'subscribe/cccd-on-wire/{hb.kind}',
                     lambda: f'{hb.name}: subscribe(prefer_notify={prefer_notify}) on props {c.props:#x} wrote CCCD '
@@ -898,6 +951,7 @@ async def notif_case(case, r: R):
         absorb()
         if ok:
             hb.cbs[c.handle] = {'n': 0, 'i': 0}
+            hb.subs[c.handle] = []
             if had:
                 r.check(hb.cccd.get(c.handle) == 0, f'unsubscribe/cccd-on-wire/{hb.kind}',
                         lambda: f'{hb.name}: after unsubscribe the last CCCD write is {hb.cccd.get(c.handle)}; {ctx()}')
@@ -909,6 +963,297 @@ async def notif_case(case, r: R):
         await rig_.quiesce()
         absorb()
         r.ev('raw_cccd_writes')
+
+    # ---- server-initiated PDUs in the same burst as the response to the request that enabled them ----
+    # A server may push the current value from its `subscription` event handler (what profiles do): through the
+    # API from a task (the PDU follows the Write Response) or straight from the handler (the PDU precedes it).
+    # The handler below is armed for one CCCD write of one bearer at a time and does nothing otherwise.
+    armed = {'now': None}
+
+    def make_on_subscription(c: rg.Char, attr):
+        def on_subscription(bearer, notify_enabled, indicate_enabled):
+            a = armed['now']
+            if a is None or a['c'] is not c or bearer is not a['bearer']:
+                return
+            if a['on'] == 'subscribe' and not (notify_enabled or indicate_enabled):
+                return
+            if a['on'] == 'unsubscribe' and (notify_enabled or indicate_enabled):
+                return
+            armed['now'] = None
+            a['fired'] = True
+            if a['mode'] == 'inline':
+                server.send_gatt_pdu(bearer, bytes([a['op']]) + struct.pack('<H', c.handle) + a['value'][:a['room']])
+            else:
+                fn = server.notify_subscriber if a['op'] == rg.OP_NOTIFY else server.indicate_subscriber
+                a['task'] = asyncio.ensure_future(fn(bearer, attr, a['value'], a['force']))
+        return on_subscription
+
+    for c_ in subs:
+        if c_.cccd:
+            objs[id(c_)].on(objs[id(c_)].EVENT_SUBSCRIPTION, make_on_subscription(c_, objs[id(c_)]))
+
+    async def run_held(hb: HB, coro, hold: bool, a: dict):
+        """Runs `coro` (a client call of bearer hb). hold: what the client's controller hands to its host is held
+        back until the server side has gone quiet; exchanges that precede the CCCD write (subscribe() discovers
+        the descriptors first) are let through one by one; once the armed subscription handler has run, the
+        Write Response and whatever the server sent with it are released back to back, so that they reach the
+        client host in consecutive loop turns."""
+        task = asyncio.ensure_future(coro)
+        if hold:
+            fifo = rig_.c2h[hb.dev].fifo
+            fifo.paused = True
+            try:
+                for _round in range(8):
+                    calm = 0
+                    for _ in range(20000):
+                        await asyncio.sleep(0)
+                        calm = calm + 1 if rig_.in_flight == len(fifo.queue) and not task.done() else 0
+                        if calm >= 40 or task.done():
+                            break
+                    if task.done() or a['fired']:
+                        break
+                    fifo.paused = False
+                    for _ in range(5000):
+                        await asyncio.sleep(0)
+                        if not fifo.queue:
+                            break
+                    fifo.paused = True
+                for e in fifo.queue:
+                    e[0] = 0
+            finally:
+                fifo.paused = False
+        return task
+
+    def pdus_for(new, hb: HB, h: int):
+        """(position, opcode, value) of the notifications / indications for handle h the server put on hb's wire,
+        position of the Write Response, number of confirmations the client sent"""
+        sent, rsp, confs = [], None, 0
+        for pos, (_seq, sender, pdu, _m) in enumerate(new[hb.idx]):
+            if sender == 0 and pdu[:1] in (b'\x1b', b'\x1d') and len(pdu) >= 3 and struct.unpack_from('<H', pdu, 1)[0] == h:
+                sent.append((pos, pdu[0], pdu[3:]))
+            elif sender == 0 and pdu == b'\x13' and rsp is None:
+                rsp = pos
+            elif sender != 0 and pdu == b'\x1e':
+                confs += 1
+        return sent, rsp, confs
+
+    async def do_push_subscribe(hb: HB):
+        """subscribe() while the server answers the CCCD write with a notification / indication of its own"""
+        c = rng.choice(with_cccd)
+        prefer_notify = rng.random() < 0.5
+        kind = sub_kind(c, prefer_notify)
+        proxy = hb.proxies[c.handle]
+        m = hb.wire.mtu
+        mode = rng.choice(['task', 'task', 'inline'])
+        hold = rng.random() < 0.7
+        value = make_value(rng.randint(0, 255), max(0, rng.choice([0, 1, 7, 16, 16, 16, m - 3, m])))
+        op = rg.OP_NOTIFY if kind == 'n' else rg.OP_INDICATE
+        a = {'c': c, 'bearer': hb.server_bearer, 'on': 'subscribe', 'mode': mode, 'op': op, 'value': value,
+             'room': m - 3, 'force': rng.random() < 0.3, 'fired': False, 'task': None}
+        cb = make_cb(hb, c, kind)
+        updates = []
+
+        def on_update(v):
+            updates.append((bytes(v), phase['now']))
+
+        arrivals = []
+
+        def hook(dev, direction, pkt):
+            if dev == hb.dev and direction == 'c2h' and pkt[:1] == b'\x02' and len(pkt) >= 5 and \
+                    struct.unpack_from('<H', pkt, 1)[0] & 0xFFF == hb.cconn.handle:
+                arrivals.append(phase['now'])
+
+        via = rng.choice(['client', 'proxy'])       # Client.subscribe(proxy, f) / CharacteristicProxy.subscribe(f)
+
+        async def subscribe_then_mark():
+            if via == 'proxy':
+                await proxy.subscribe(cb, prefer_notify)
+            else:
+                await hb.client.subscribe(proxy, cb, prefer_notify)
+            phase['now'] = 'returned'
+
+        for b in bearers:
+            b.cb_log.clear()
+        n_before = len(hb.cb_trace)
+        before = {'n': hb.cbs[c.handle]['n'], 'i': hb.cbs[c.handle]['i']}
+        proxy.on('update', on_update)
+        rig_.on_hci_delivery.append(hook)
+        phase['now'] = 'pending'
+        armed['now'] = a
+        try:
+            task = await run_held(hb, subscribe_then_mark(), hold, a)
+            ok, _ = await call(r, f'subscribe/{hb.kind}', task)
+            await rig_.quiesce()
+            if a['task'] is not None:
+                await call(r, f'delivery/{"notify" if kind == "n" else "indicate"}_subscriber/{hb.kind}/'
+                              f'from-subscription-handler', a['task'])
+                await rig_.quiesce()
+        finally:
+            armed['now'] = None
+            phase['now'] = ''
+            rig_.on_hci_delivery.remove(hook)
+            proxy.remove_listener('update', on_update)
+        new = absorb()
+        r.ev('pushes_on_subscribe')
+        if not ok:
+            return
+        hb.cbs[c.handle][kind] += 1
+        hb.subs.setdefault(c.handle, []).append({'sid': cb.sid, 'kind': kind, 'cb': cb, 'via': via})
+        r.ev('subscriptions')
+        r.ev(f'pushes_on_subscribe_through_{via}_api')
+        sent, rsp, confs = pdus_for(new, hb, c.handle)
+        if not a['fired'] or not sent or rsp is None:
+            r.ev('pushes_on_subscribe_without_pdu')
+            return
+        K = 'notification' if kind == 'n' else 'indication'
+        r.ev('oracle_evals')
+        if len(sent) != 1 or sent[0][1] != op:
+            r.bad(f'delivery/on-subscription/{hb.kind}/{K}/{mode}',
+                  f'{hb.name}: the subscription handler pushed one {K} for handle {c.handle}; on the wire: '
+                  f'{[(hex(o), len(v)) for _p, o, v in sent]}; {ctx()}')
+            return
+        pos, _op, wire_value = sent[0]
+        # arrival class: the PDU precedes the Write Response / reached the client host before subscribe()
+        # resumed (the last ACL packet of the burst did) / reached it afterwards
+        arrival = 'before-response' if pos < rsp else \
+            'with-response' if arrivals and arrivals[-1] == 'pending' else 'after-return'
+        r.ev('pushed_pdus_on_wire')
+        r.ev(f'pushed_on_subscribe_{arrival}')
+        r.ev(f'pushed_on_subscribe_{hb.kind}')
+        r.ev(f'pushed_on_subscribe_{K}')
+        if hold:
+            r.ev('pushed_on_subscribe_released_back_to_back')
+        trace = hb.cb_trace[n_before:]
+        mine = [t for t in trace if t[0] == cb.sid]
+        where = (f'{hb.name}: subscribe(prefer_notify={prefer_notify}) to handle {c.handle} (props {c.props:#x}); the '
+                 f'server\'s subscription handler pushed a {K} of {len(value)} bytes ({mode}: '
+                 f'{"straight from the handler, before the Write Response" if mode == "inline" else "through the API from a task"}), '
+                 f'which is on the wire {arrival.replace("-", " ")} (PDU position {pos}, Write Response at {rsp}; client '
+                 f'host packets held and released back to back: {hold}); ')
+        r.ev('pushed_callback_checks')
+        r.ev('oracle_evals')
+        if len(mine) != 1:
+            r.bad(f'callback/on-subscribe/missed/{hb.kind}/{K}/{arrival}',
+                  where + f'the subscriber passed to subscribe() was called {len(mine)} times; {ctx()}')
+        elif mine[0][3] != wire_value:
+            r.bad(f'callback/on-subscribe/value/{hb.kind}/{K}', where + f'the subscriber got {len(mine[0][3])} bytes, '
+                  f'the PDU carries {len(wire_value)}; {ctx()}')
+        # the subscribers registered earlier for that kind of PDU on this bearer, once each
+        others = [t for t in trace if t[0] != cb.sid and t[1] == c.handle and t[2] == kind]
+        r.ev('oracle_evals')
+        if len(others) != before[kind] or any(t[3] != wire_value for t in others):
+            r.bad(f'callback/on-subscribe/earlier-subscribers/{hb.kind}/{K}/{arrival}',
+                  where + f'{before[kind]} subscribers were registered before, {len(others)} calls; {ctx()}')
+        r.ev('oracle_evals')
+        if len(updates) != 1 or updates[0][0] != wire_value:
+            r.bad(f'callback/on-subscribe/update-event/{hb.kind}/{K}/{arrival}',
+                  where + f'the characteristic proxy emitted {len(updates)} update events; {ctx()}')
+        if kind == 'i':
+            r.ev('oracle_evals')
+            if confs != 1:
+                r.bad(f'indication/confirmations/{hb.kind}/on-subscribe',
+                      where + f'{confs} confirmations on the wire for one indication; {ctx()}')
+        if len(sample_steps) < 10 and not any('pushed_on_subscribe' in x for x in sample_steps):
+            sample_steps.append({'pushed_on_subscribe': hb.name, 'char': c.handle, 'kind': K, 'how': mode,
+                                 'arrival': arrival, 'callbacks': len(mine) + len(others)})
+
+    async def do_push_unsubscribe(hb: HB):
+        """unsubscribe() of ONE subscriber or of all, while the server answers the CCCD write with a forced
+        notification / indication, then forced PDUs after unsubscribe() returned: a removed subscriber is never
+        called after the return, the remaining ones get every PDU"""
+        cands = [c for c in with_cccd if hb.subs.get(c.handle)]
+        if not cands:
+            return
+        c = rng.choice(cands)
+        proxy = hb.proxies[c.handle]
+        regs = hb.subs[c.handle]
+        form = rng.choice(['one', 'one', 'all'])
+        gone = [rng.choice(regs)] if form == 'one' else list(regs)
+        stay = [x for x in regs if x not in gone]
+        m = hb.wire.mtu
+        K0 = gone[0]['kind']
+        op = rg.OP_NOTIFY if K0 == 'n' else rg.OP_INDICATE
+        mode = rng.choice(['task', 'inline'])
+        hold = rng.random() < 0.7
+        value = make_value(rng.randint(0, 255), rng.choice([0, 1, 7, 16, 16]))
+        a = {'c': c, 'bearer': hb.server_bearer, 'on': 'unsubscribe', 'mode': mode, 'op': op, 'value': value,
+             'room': m - 3, 'force': True, 'fired': False, 'task': None}
+
+        async def unsubscribe_then_mark():
+            if form == 'one' and gone[0].get('via') == 'proxy':
+                await proxy.unsubscribe(gone[0]['cb'])
+            elif form == 'one':
+                await hb.client.unsubscribe(proxy, gone[0]['cb'])
+            else:
+                await hb.client.unsubscribe(proxy)
+            phase['now'] = 'returned'
+
+        for b in bearers:
+            b.cb_log.clear()
+        n_before = len(hb.cb_trace)
+        phase['now'] = 'pending'
+        armed['now'] = a
+        try:
+            task = await run_held(hb, unsubscribe_then_mark(), hold, a)
+            ok, _ = await call(r, f'unsubscribe/{hb.kind}', task)
+            await rig_.quiesce()
+            if a['task'] is not None:
+                await call(r, f'delivery/{"notify" if K0 == "n" else "indicate"}_subscriber/{hb.kind}/'
+                              f'from-subscription-handler', a['task'])
+                await rig_.quiesce()
+        finally:
+            armed['now'] = None
+        new = absorb()
+        r.ev('pushes_on_unsubscribe')
+        r.ev(f'unsubscribe_form_{form}')
+        if not ok:
+            phase['now'] = ''
+            return
+        hb.subs[c.handle] = stay
+        hb.cbs[c.handle] = {'n': sum(1 for x in stay if x['kind'] == 'n'), 'i': sum(1 for x in stay if x['kind'] == 'i')}
+        r.ev('unsubscriptions')
+        sent, rsp, _confs = pdus_for(new, hb, c.handle)
+        if a['fired'] and sent:
+            r.ev('pushed_on_unsubscribe_pdus_on_wire')
+        # after the return: forced PDUs of both kinds the characteristic supports
+        phase['now'] = 'after'
+        after_pdus = []
+        for kk, bit, api in (('n', rg.P_NOTIFY, 'notify_subscriber'), ('i', rg.P_INDICATE, 'indicate_subscriber')):
+            if not c.props & bit:
+                continue
+            v = make_value(rng.randint(0, 255), rng.choice([1, 5, 16]))
+            ok2, _ = await call(r, f'delivery/{api}/{hb.kind}/force', getattr(server, api)(hb.server_bearer, objs[id(c)], v, True))
+            await rig_.quiesce()
+            got, _rsp, _c = pdus_for(absorb(), hb, c.handle)
+            if ok2 and len(got) == 1:
+                after_pdus.append((kk, got[0][2]))
+                r.ev('forced_pdus_after_unsubscribe_returned')
+        phase['now'] = ''
+        trace = hb.cb_trace[n_before:]
+        gone_ids = {x['sid'] for x in gone}
+        where = (f'{hb.name}: unsubscribe({"proxy, subscriber" if form == "one" else "proxy"}) of handle {c.handle} with '
+                 f'{len(regs)} registered subscribers ({len(stay)} stay); the server pushed a forced PDU from its '
+                 f'subscription handler: {a["fired"]} ({mode}); then {len(after_pdus)} forced PDUs after the return; ')
+        r.ev('unsubscribe_return_checks')
+        r.ev('oracle_evals')
+        late = [t for t in trace if t[0] in gone_ids and t[4] in ('returned', 'after')]
+        if late:
+            r.bad(f'callback/after-unsubscribe-returned/{hb.kind}/{form}',
+                  where + f'a removed subscriber was called {len(late)} times after unsubscribe() had returned '
+                  f'(phases {[t[4] for t in late]}); {ctx()}')
+        early = [t for t in trace if t[0] in gone_ids and t[4] == 'pending']
+        if early:
+            r.ev('removed_subscriber_called_while_unsubscribe_pending')      # not pinned
+        # the subscribers that stay get every PDU of their kind that came after the return
+        for kk, wire_value in after_pdus:
+            want = [x['sid'] for x in stay if x['kind'] == kk]
+            got = [t[0] for t in trace if t[4] == 'after' and t[2] == kk and t[3] == wire_value and t[0] not in gone_ids]
+            r.ev('remaining_subscriber_checks')
+            r.ev('oracle_evals')
+            if sorted(got) != sorted(want):
+                r.bad(f'callback/after-unsubscribe/remaining-subscribers/{hb.kind}/{form}',
+                      where + f'{len(want)} subscribers of kind {kk} stay registered, {len(got)} calls for the forced '
+                      f'PDU; {ctx()}')
 
     # ---- per-bearer state through every read path ---------------------------------------------
     def exp_attr(b: HB, h: int) -> bytes:
@@ -1196,9 +1541,15 @@ async def notif_case(case, r: R):
         fault = None
         is_followup = False
         op = 'api' if followup is not None else rng.choices(
-            ['api', 'sub', 'unsub', 'cccd', 'read', 'write', 'fault', 'client-fault'],
-            [12, 1.5, 1.0, 1.6, 5.0, 0.8, 1.8, 0.9])[0]
+            ['api', 'sub', 'unsub', 'cccd', 'read', 'write', 'fault', 'client-fault', 'push-sub', 'push-unsub'],
+            [12, 1.5, 1.0, 1.6, 5.0, 0.8, 1.8, 0.9, 1.3, 0.7])[0]
         hb = rng.choice(bearers)
+        if op == 'push-sub':
+            await do_push_subscribe(hb)
+            continue
+        if op == 'push-unsub':
+            await do_push_unsubscribe(hb)
+            continue
         if op == 'sub':
             await do_subscribe(hb, rng.choice(with_cccd), rng.random() < 0.5)
             continue
@@ -1723,7 +2074,11 @@ LEVEL_TEXT = ('~300 (quick) / ~9000 (thorough) generated databases x MTU prefere
               'client callbacks; in the same scenarios every bearer reads CCCDs and bearer-/connection-scoped values back '
               'through Read / Read Blob / Read By Type / Read Multiple (Variable) and is compared with what that bearer '
               'wrote on the wire, and indications are left unconfirmed (30 virtual s timeout) or cancelled and followed '
-              'by another indication on the same bearer; every discovery procedure is run against 13 non-progressing adversarial response '
+              'by another indication on the same bearer; subscribe / unsubscribe (both API forms, one or all '
+              'subscribers) run while the server\'s subscription handler pushes a PDU before / with / after the Write '
+              'Response (client host packets held and released back to back): every PDU on the wire must reach the new '
+              'and the earlier subscribers and the update event, a removed subscriber is never called after '
+              'unsubscribe() returned; every discovery procedure is run against 13 non-progressing adversarial response '
               'strategies with the requests counted on the wire (> 1000 or a virtual-time hang = violation). Held = no '
               'refuting execution among those observed; sampling, not proof.')
 LEVEL_NOTE = ('Trusted: vlib/ref_gatt.py (layout rule, declaration values, ATT/EATT wire parser, ~350 lines), the '
